@@ -192,3 +192,37 @@ pub fn run_workers(dir: &Path, jobs: &[serde_json::Value], nproc: usize, timeout
     }
     out
 }
+
+/// Hygiene for the worker children (not part of the oracle): a private mount namespace in which
+/// everything except the scratch areas (/var/tmp, /tmp, the directory of the worker's output file)
+/// is read-only.  On a tree where a path argument DOES escape, the stray effect then hits the
+/// snapshotted sentinel tree (reported) or fails with EROFS, instead of littering `/`.
+/// Call before any thread is started.  Returns false (and changes nothing that matters) when the
+/// process lacks the privilege; the harness then runs as before.
+pub fn jail_readonly_root(writable: &[&Path]) -> bool {
+    use std::ffi::CString;
+    use std::os::unix::ffi::OsStrExt;
+    let c = |p: &Path| CString::new(p.as_os_str().as_bytes()).unwrap();
+    if std::env::var_os("RV_NO_JAIL").is_some() {
+        return false;
+    }
+    unsafe {
+        if libc::unshare(libc::CLONE_NEWNS) != 0 {
+            return false;
+        }
+        let root = CString::new("/").unwrap();
+        if libc::mount(std::ptr::null(), root.as_ptr(), std::ptr::null(), libc::MS_REC | libc::MS_PRIVATE, std::ptr::null()) != 0 {
+            return false;
+        }
+        for w in writable {
+            if !w.is_dir() {
+                continue;
+            }
+            let cw = c(w);
+            if libc::mount(cw.as_ptr(), cw.as_ptr(), std::ptr::null(), libc::MS_BIND | libc::MS_REC, std::ptr::null()) != 0 {
+                return false;
+            }
+        }
+        libc::mount(std::ptr::null(), root.as_ptr(), std::ptr::null(), libc::MS_REMOUNT | libc::MS_BIND | libc::MS_RDONLY, std::ptr::null()) == 0
+    }
+}
